@@ -875,7 +875,7 @@ def create_formula(rep, add_formula):
             elif rep.name == "<<":
                 return add_formula(Initially(rhs))
             elif rep.name == ";>" or rep.name == ";>:":
-                return add_formula(BooleanFormula("&", lhs, Next(rhs, 1, rep.name == ";>:")))
+                return add_formula(BooleanFormula("&", lhs, add_formula(Next(rhs, 1, rep.name == ";>:"))))
             elif rep.name == ">*":
                 formula = add_formula(TelFormulaN(">*", lhs, rhs))
                 formula.set_future(add_formula(Next(formula, 1, True)))
